@@ -433,3 +433,6 @@ def run(repo: Repo, rep: Report, tier: str) -> None:
     call_shortcut_rule(repo, rep, "C11.R18")
     proxy_fold_rule(repo, rep, "C11.R19")
     rebuild_fold_rule(repo, rep, "C11.R20")
+    from .share import share_rules
+
+    share_rules(repo, rep, tier, "c04", {"C04.R2": "C11.R21"}, "a union's size is its largest member rounded up to its alignment in aligned mode - in whichever way the union class is created")
